@@ -2,7 +2,7 @@
    bounds (Gen/KCore.v: k_toseq_take, k_toseq_badlen) refine the L0 operations. *)
 From Coq Require Import ZArith NArith List Bool String Lia.
 From DM Require Import Base.PyVal Spec.Nf Spec.Table Spec.Ops Model.LTable Gen.KCore Model.Core.
-From DM Require Import Proofs.ListX Proofs.TableFacts Proofs.CoreRefine.
+From DM Require Import Proofs.ListX Proofs.TableFacts Proofs.MergeFacts Proofs.CoreRefine.
 Import ListNotations.
 
 Lemma map_set_nth {A B} (f : A -> B) ci x : forall l, map f (set_nth ci x l) = set_nth ci (f x) (map f l).
@@ -190,4 +190,56 @@ Proof.
   destruct (nf (lc_kind c) v) as [x|e].
   - rewrite put_put, abs_with_cells. reflexivity.
   - eexists. reflexivity.
+Qed.
+
+(* ---------- col[selection] = value: positions of the selection's row ids (by either lookup algorithm), then the
+   same coercion and ordered write as for a slice; a selection of another family is ValueError, a relative holding a
+   row the table lacks is KeyError (Index.index / the exactness test after searchsorted), and nothing is written ---------- *)
+Lemma all_some_none_in {A B} (g : A -> option B) l x : In x l -> g x = None -> all_some (map g l) = None.
+Proof.
+  induction l as [|a l IH]; intros Hin Hg; [destruct Hin|]. cbn [map all_some].
+  destruct Hin as [->|Hin].
+  - rewrite Hg. reflexivity.
+  - destruct (g a); [|reflexivity]. rewrite (IH Hin Hg). reflexivity.
+Qed.
+
+Theorem setcell_sel_refines (w : world) p ti name t2 r :
+  pool w = map abs p -> winv p ->
+  match lstep p (OSetCell ti name (ASel t2) r) with
+  | LUpd i t' => step w (OSetCell ti name (ASel t2) r) = (put w i (abs t'), OkUnit)
+  | LErr => exists e, snd (step w (OSetCell ti name (ASel t2) r)) = Err e
+                      /\ fst (step w (OSetCell ti name (ASel t2) r)) = w
+  | LSkip => True
+  | _ => False
+  end.
+Proof.
+  intros Hp Hw. cbn [lstep]. destruct (nth_error p ti) as [t|] eqn:Et; [|exact I].
+  destruct (nth_error p t2) as [k|] eqn:Ek; [|exact I].
+  pose proof (winv_nth _ _ _ Hw Et) as Hinv.
+  cbn [step]. rewrite (get_abs w p ti t Hp Et). unfold set_cells. change (names (abs t)) with (l_names t).
+  destruct (lookup name (l_names t)) as [ci|] eqn:El; [|eexists; split; reflexivity].
+  change (slots (abs t)) with (map slot_of_col (l_cols t)). rewrite nth_error_map.
+  destruct (nth_error (l_cols t) ci) as [c|] eqn:Ec; cbn [option_map]; [|exact I].
+  cbn [address]. rewrite (get_abs w p t2 k Hp Ek).
+  change (fam (abs k)) with (l_fam k). change (fam (abs t)) with (l_fam t).
+  change (Table.ids (abs k)) with (ia (l_rowid k)). change (Table.ids (abs t)) with (ia (l_rowid t)).
+  destruct (negb (Nat.eqb (l_fam k) (l_fam t))); [eexists; split; reflexivity|].
+  destruct (forallb (fun x => mem_N x (ia (l_rowid t))) (ia (l_rowid k))) eqn:Eall; cbn [negb].
+  - assert (Hsub : forall x, In x (ia (l_rowid k)) -> In x (ia (l_rowid t))).
+    { intros x Hx. rewrite forallb_forall in Eall. apply MergeFacts.mem_N_In. apply Eall. exact Hx. }
+    rewrite (sel_positions_refines t c k Hinv (nth_error_In _ _ Ec) Hsub).
+    destruct (all_some (map (fun r0 => pos_of r0 (ia (l_rowid t))) (ia (l_rowid k)))) as [ps|];
+      [|eexists; split; reflexivity].
+    change (skind (slot_of_col c)) with (lc_kind c). change (scells (slot_of_col c)) with (lc_cells c).
+    rewrite rhs_cells_k_spec.
+    destruct (rhs_cells (lc_kind c) (List.length ps) r) as [xs|e]; [|eexists; split; reflexivity].
+    f_equal. f_equal. symmetry. apply (abs_with_cells t ci c).
+  - assert (Hex : exists x, In x (ia (l_rowid k)) /\ ~ In x (ia (l_rowid t))).
+    { clear -Eall. induction (ia (l_rowid k)) as [|a l IH]; [discriminate|]. cbn [forallb] in Eall.
+      destruct (mem_N a (ia (l_rowid t))) eqn:Em.
+      - cbn [andb] in Eall. destruct (IH Eall) as [x [H1 H2]]. exists x. split; [right; exact H1|exact H2].
+      - exists a. split; [left; reflexivity|]. apply MergeFacts.mem_N_false. exact Em. }
+    destruct Hex as [x [Hx Hnx]].
+    rewrite (all_some_none_in (fun r0 => pos_of r0 (ia (l_rowid t))) _ x Hx (pos_of_notin _ _ Hnx)).
+    eexists; split; reflexivity.
 Qed.
